@@ -346,6 +346,9 @@ def run(ctx: Context) -> None:
     ctx.rule(c17.dtype_rule)
     # R3: row-count plumbing
     ctx.rule(r3_rows, base)
+    # a batch has batch_size rows: the low-discrepancy generator is asked for, and returns, exactly that many points (cursor rule of C13)
+    from . import c13 as _c13
+    ctx.rule(_c13.halton_cursor)
     # surrogates return the first batch_size rows of a pool of candidate_pool_size rows: the pool must not be thinned before the prefix is taken
     ctx.rule(c16.r2_surrogate)
     # the grid itself stays inside the declared bounds up to the documented 1e-7 end-point tolerance (which C03 takes as given)
